@@ -32,6 +32,7 @@ type HarnessCfg struct {
 	MaxSeconds map[string]int           `json:"max_seconds"`
 	Stubs      map[string]string        `json:"stubs"`
 	YieldMode  string                   `json:"yield_mode"`
+	ReplayOptional bool                 `json:"replay_optional"` // model-level counterexamples (crash durability) count even if a native run cannot exhibit them
 }
 
 type CheckCfg struct {
@@ -302,7 +303,15 @@ func main() {
 			}
 			continue
 		}
+		confirmedSig := map[string]bool{}
+		lastOfSig := map[string]int{}
 		for i, v := range res.Violations {
+			lastOfSig[v.Sig] = i
+		}
+		for i, v := range res.Violations {
+			if confirmedSig[v.Sig] {
+				continue // one confirmed counterexample per signature is reported
+			}
 			// known finding?
 			ki := matchKnown(known, cfg.Property, v)
 			confirmed := true
@@ -319,12 +328,19 @@ func main() {
 					replayOK++
 				} else {
 					confirmed = false
-					inconclusive = append(inconclusive, fmt.Sprintf("%s: UNCONFIRMED counterexample (%s %s @%s) did not reproduce natively\n%s", hs.Name, v.Kind, v.Label, v.Pos, tail(out, 15)))
+					if lastOfSig[v.Sig] == i && hc.ReplayOptional {
+						confirmed = true
+						fmt.Fprintf(os.Stderr, "note: %s: counterexample holds in the environment model only (a native run cannot exhibit it)\n", hs.Name)
+					} else if lastOfSig[v.Sig] == i {
+						// none of the counterexamples with this signature reproduced
+						inconclusive = append(inconclusive, fmt.Sprintf("%s: UNCONFIRMED counterexample (%s %s @%s) did not reproduce natively\n%s", hs.Name, v.Kind, v.Label, v.Pos, tail(out, 15)))
+					}
 				}
 			}
 			if !confirmed {
 				continue
 			}
+			confirmedSig[v.Sig] = true
 			if ki >= 0 {
 				usedKnown[ki] = true
 				knownLines = append(knownLines, fmt.Sprintf("KNOWN-FINDING: property=%s %s [%s %s %s @%s]", cfg.Property, known.Findings[ki].What, hs.Name, v.Kind, v.Label, v.Pos))
